@@ -2,8 +2,11 @@ package rules
 
 import (
 	"fmt"
+	"go/types"
 	"math/big"
 	"path/filepath"
+
+	"golang.org/x/tools/go/ssa"
 
 	"verif/internal/absint"
 	"verif/internal/limbproof"
@@ -54,6 +57,7 @@ func checkC04(c *Ctx) {
 	obs, err := limbproof.CheckMulGFlooredDiv(filepath.Join(prog.Dir, "point_mul_glv.go"), sym.N)
 	addLimb(c, "C04-4", obs, err, "mulGFlooredDiv")
 	c.R.Floor("C04-4", 8)
+	c04MulGCallSites(c, prog)
 
 	windowBytes := -1
 	for _, p := range progs {
@@ -123,20 +127,62 @@ func c04MulBeta(c *Ctx, prog *load.Program, beta *big.Int) {
 	c.R.Decide(ok, "C04-5", "mulBeta", pos, "mulBeta(p) = (beta*X, Y, Z)", "mulBeta is not (beta*X, Y, Z)")
 }
 
+// c04MulGCallSites: when mulGFlooredDiv takes an operand as plain limbs (already out of the Montgomery domain), every
+// call site must pass the destination of a fiat.FromMontgomery call that precedes it on every path (value < n).
+func c04MulGCallSites(c *Ctx, prog *load.Program) {
+	fn := absint.FindFunc(prog.SSA, Method(models.ScalarType, "mulGFlooredDiv"))
+	if fn == nil {
+		return
+	}
+	var limbParams []int
+	for i, p := range fn.Params {
+		if i == 0 {
+			continue
+		}
+		if pt, ok := p.Type().Underlying().(*types.Pointer); ok {
+			if at, ok := pt.Elem().Underlying().(*types.Array); ok && at.Len() == 4 {
+				if nt, isNamed := pt.Elem().(*types.Named); !isNamed || nt.Obj().Name() != "MontgomeryDomainFieldElement" {
+					limbParams = append(limbParams, i)
+				}
+			}
+		}
+	}
+	if len(limbParams) == 0 {
+		return
+	}
+	for _, g := range ModuleFuncs(prog) {
+		for _, b := range g.Blocks {
+			for _, in := range b.Instrs {
+				call, ok := in.(*ssa.Call)
+				if !ok || call.Common().StaticCallee() != fn {
+					continue
+				}
+				for _, pi := range limbParams {
+					arg := call.Common().Args[pi]
+					good := false
+					for _, bb := range g.Blocks {
+						for _, ii := range bb.Instrs {
+							cc, isCall := ii.(*ssa.Call)
+							if !isCall || cc.Common().StaticCallee() == nil {
+								continue
+							}
+							callee := cc.Common().StaticCallee()
+							if callee.Name() == "FromMontgomery" && callee.Pkg != nil && callee.Pkg.Pkg.Path() == models.FiatSPkg && cc.Common().Args[0] == arg && instrBefore(cc, call) {
+								good = true
+							}
+						}
+					}
+					c.R.Decide(good, "C04-4", fmt.Sprintf("call-site/%s/arg%d", g.Name(), pi), PosStr(prog, call.Pos()),
+						"the limb operand is the output of fiat.FromMontgomery (value < n)", "mulGFlooredDiv is handed limbs that are not a fiat.FromMontgomery output (the product bound (n-1)^2 is not established)")
+				}
+			}
+		}
+	}
+}
+
 func c04Split(c *Ctx, prog *load.Program, k refmath.GLVConsts) {
 	set := scalarSet()
-	set.Intercepts[Method(models.ScalarType, "mulGFlooredDiv")] = func(ex *absint.Exec, cc *absint.CallCtx) (absint.Val, bool) {
-		recv, _ := cc.St.Resolve(cc.Args[0]).(*absint.Ptr)
-		a, _ := cc.St.Resolve(cc.Args[1]).(*absint.Ptr)
-		b, _ := cc.St.Resolve(cc.Args[2]).(*absint.Ptr)
-		if recv == nil || a == nil || b == nil {
-			return nil, false
-		}
-		x, _ := ex.LoadLeaf(cc.St, a).(*sym.Term)
-		y, _ := ex.LoadLeaf(cc.St, b).(*sym.Term)
-		ex.StoreLeaf(cc.St, recv, sym.App(sym.Fn, "round384", sym.Canon(x), sym.Canon(y)), cc.Pos)
-		return recv, true
-	}
+	mulGModel(set)
 	r := RunFn(prog, set, Method(models.ScalarType, "splitGLV"), nil)
 	pos := PosOf(prog, r.Fn)
 	if !r.OK() {
